@@ -255,6 +255,9 @@ func concBody(x *Exec, raw json.RawMessage) {
 	if has(p.Oracles, "expired") || has(p.Oracles, "seq-equiv") {
 		seqEquiv(x, p, recs)
 	}
+	if has(p.Oracles, "interleaving-equiv") {
+		interleavingEquiv(x, p, recs, contents)
+	}
 
 	if has(p.Oracles, "singleflight") {
 		tids := make([]int, len(recs))
@@ -829,4 +832,84 @@ func seqEquiv(x *Exec, p concParams, recs [][]opRec) {
 		x.Fail(d.Kind, d.Subject, "sequential replay of the observed history: %s", d.Detail)
 	}
 	x.Count("seq-equiv-checked")
+}
+
+// interleavingEquiv (C03, fine-grained): the clock moves while an operation is in progress. Every operation samples
+// the clock once, so what the threads observed (results and final visible contents) must be what SOME interleaving of
+// the threads' operation sequences produces when executed sequentially. Scenarios are tiny (<= 4 operations).
+func interleavingEquiv(x *Exec, p concParams, recs [][]opRec, contents map[int]int) {
+	type pos struct{ th, idx int }
+	var orders [][]pos
+	var gen func(cur []pos, next []int)
+	gen = func(cur []pos, next []int) {
+		done := true
+		for th := range recs {
+			if next[th] < len(recs[th]) {
+				done = false
+				n2 := append([]int(nil), next...)
+				n2[th]++
+				gen(append(append([]pos(nil), cur...), pos{th, next[th]}), n2)
+			}
+		}
+		if done {
+			orders = append(orders, cur)
+		}
+	}
+	gen(nil, make([]int, len(recs)))
+	var tried []string
+	for _, ord := range orders {
+		s := newSeqRunner(p.Cfg)
+		for _, op := range p.Setup {
+			s.apply(op)
+		}
+		tr := map[int]int{}
+		for i, ps := range ord {
+			ci := (recs[ps.th][ps.idx].th+2)*1000 + ps.idx*10
+			ri := (-1+2)*1000 + (len(p.Setup)+i)*10
+			for d := 0; d < 10; d++ {
+				tr[ci+d] = ri + d
+			}
+		}
+		conv := func(v int) int {
+			if nid, ok := tr[valID(v)]; ok {
+				return mkVal(nid, v&15)
+			}
+			return v
+		}
+		same := true
+		var desc []string
+		for _, ps := range ord {
+			rc := recs[ps.th][ps.idx]
+			rr := s.apply(rc.op)
+			desc = append(desc, fmt.Sprintf("%s->(%d,%v,%q)", rc.op, rr.Val, rr.OK, rr.Err))
+			if conv(rc.res.Val) != rr.Val || rc.res.OK != rr.OK || rc.res.Err != rr.Err || (rc.res.Panic != "") != (rr.Panic != "") {
+				same = false
+			}
+		}
+		final := map[int]int{}
+		for k, v := range s.r.C.All() {
+			final[k] = v
+		}
+		if len(final) != len(contents) {
+			same = false
+		}
+		for k, v := range contents {
+			if fv, ok := final[k]; !ok || fv != conv(v) {
+				same = false
+			}
+		}
+		s.close()
+		if same {
+			x.Count("interleavings-explained")
+			return
+		}
+		tried = append(tried, strings.Join(desc, " "))
+	}
+	var got []string
+	for _, rs := range recs {
+		for _, rc := range rs {
+			got = append(got, fmt.Sprintf("%s->(%d,%v,%q)", rc.op, rc.res.Val, rc.res.OK, rc.res.Err))
+		}
+	}
+	x.Fail("no-sequential-explanation", "clock@"+p.Label, "observed %v with final contents %v; no interleaving of the operations, run one at a time, gives that: %v", got, contents, tried)
 }
